@@ -2,6 +2,7 @@ package c11
 
 import (
 	"fmt"
+	"sync"
 	"testing"
 	"time"
 
@@ -296,4 +297,205 @@ func TestMonadicLoop(t *testing.T) {
 		}
 	}
 	vlib.S().Exhaustive("monadic-loop")
+}
+
+// Part "failing-effects": an effect that panics produces no value. Without handlers the panic reaches the
+// caller of Eval / Subscribe, no OnNext is called for that evaluation ("delivers to OnNext exactly once the
+// VALUE of the composition"), later effects of the chain do not run, and the next evaluation of the same
+// MonadIO (its effect succeeds then) is an ordinary one.
+
+type failCase struct {
+	Depth  int  `json:"depth"`  // FlatMap links after the failing one
+	FailAt int  `json:"failAt"` // which effect of the chain (0-based) panics on the first evaluation
+	Via    int  `json:"via"`    // 0 Subscribe, 1 Eval
+	Twice  bool `json:"twice"`  // the failing effect also fails on the second evaluation
+}
+
+type effectFailure struct{ at int }
+
+func runFailCase(c failCase) (key, msg string) {
+	var trace []string
+	round := 0
+	mkEffect := func(i int) func() int {
+		return func() int {
+			trace = append(trace, fmt.Sprintf("e%d", i))
+			if i == c.FailAt && (round == 1 || (c.Twice && round == 2)) {
+				panic(effectFailure{i})
+			}
+			return i + 1
+		}
+	}
+	m := fpgo.MonadIONewGenerics(mkEffect(0))
+	for i := 1; i <= c.Depth; i++ {
+		i := i
+		m = m.FlatMap(func(v int) *fpgo.MonadIODef[int] {
+			inner := fpgo.MonadIONewGenerics(mkEffect(i))
+			return inner.FlatMap(func(w int) *fpgo.MonadIODef[int] { return fpgo.MonadIOJustGenerics(v + w) })
+		})
+	}
+	want := 0
+	for i := 0; i <= c.Depth; i++ {
+		want += i + 1
+	}
+	for round = 1; round <= 3; round++ {
+		trace = trace[:0]
+		fails := round == 1 || (c.Twice && round == 2)
+		var onNext []int
+		var got int
+		p, _ := vlib.Try(func() {
+			if c.Via == 0 {
+				m.Subscribe(fpgo.Subscription[int]{OnNext: func(v int) { onNext = append(onNext, v) }})
+			} else {
+				got = m.Eval()
+				onNext = append(onNext, got)
+			}
+		})
+		var wantTrace []string
+		for i := 0; i <= c.Depth && (!fails || i <= c.FailAt); i++ {
+			wantTrace = append(wantTrace, fmt.Sprintf("e%d", i))
+		}
+		if fmt.Sprint(trace) != fmt.Sprint(wantTrace) {
+			return "C11/failing-effects/effects", fmt.Sprintf("evaluation %d (effect %d panics: %v) ran %v, want %v", round, c.FailAt, fails, trace, wantTrace)
+		}
+		if fails {
+			if f, ok := p.(effectFailure); !ok || f.at != c.FailAt {
+				return "C11/failing-effects/panic-lost", fmt.Sprintf("evaluation %d: effect %d panicked; the caller saw panic=%v and OnNext calls %v", round, c.FailAt, p, onNext)
+			}
+			if len(onNext) != 0 {
+				return "C11/failing-effects/onnext-without-value", fmt.Sprintf("evaluation %d: effect %d panicked (there is no value), but OnNext was called with %v", round, c.FailAt, onNext)
+			}
+			continue
+		}
+		if p != nil {
+			return "C11/failing-effects/panic", fmt.Sprintf("evaluation %d (no effect fails): %v", round, p)
+		}
+		if len(onNext) != 1 || onNext[0] != want {
+			return "C11/failing-effects/value", fmt.Sprintf("evaluation %d (after a failed one): delivered %v, want [%d]", round, onNext, want)
+		}
+	}
+	return "", ""
+}
+
+func TestFailingEffects(t *testing.T) {
+	if vlib.Replaying() {
+		t.Skip()
+	}
+	for depth := 0; depth <= 3; depth++ {
+		for failAt := 0; failAt <= depth; failAt++ {
+			for via := 0; via < 2; via++ {
+				for _, twice := range []bool{false, true} {
+					c := failCase{depth, failAt, via, twice}
+					vlib.S().Eval("failing-effects")
+					vlib.S().NonTrivial("failing-effects", fmt.Sprintf("%+v", c))
+					if key, msg := runFailCase(c); key != "" {
+						vlib.Fail(t, key, "%+v: %s", c, msg)
+					}
+				}
+			}
+		}
+	}
+	vlib.S().Exhaustive("failing-effects")
+}
+
+// Part "subscribe-then-close": an evaluation a handler has accepted is carried out although the handler is
+// closed right afterwards (the `defer h.Close()` idiom): "the effect runs on h1's goroutine ..., still exactly
+// once each". The handler is busy (gate) or parked when 1-3 subscriptions with ObserveOn(h) are made, then
+// h.Close(), then the gate opens: every effect and every OnNext ran exactly once, on h's goroutine.
+
+type closeAfterCase struct {
+	Cap   int  `json:"cap"` // handler channel capacity (>= subs when gated)
+	Subs  int  `json:"subs"`
+	Gated bool `json:"gated"` // the looper is held in an earlier task while the subscriptions are made
+	Warm  bool `json:"warm"`  // the handler has served a task before
+}
+
+func runCloseAfter(c closeAfterCase) (key, msg string, inconclusive bool) {
+	h := fpgo.Handler.NewByCh(make(chan func(), c.Cap))
+	hid := uint64(0)
+	if c.Warm || c.Gated {
+		hid = handlerGoID(h)
+	}
+	gate := make(chan struct{})
+	if c.Gated {
+		in := make(chan struct{})
+		h.Post(func() { close(in); <-gate })
+		<-in
+	}
+	var mu sync.Mutex
+	effects, nexts := map[int]int{}, map[int]int{}
+	wrongG := 0
+	for i := 0; i < c.Subs; i++ {
+		i := i
+		m := fpgo.MonadIONewGenerics(func() int {
+			mu.Lock()
+			effects[i]++
+			if hid != 0 && vlib.GoID() != hid {
+				wrongG++
+			}
+			mu.Unlock()
+			return i
+		}).ObserveOn(h)
+		posted := make(chan struct{})
+		go func() {
+			defer close(posted)
+			m.Subscribe(fpgo.Subscription[int]{OnNext: func(v int) {
+				mu.Lock()
+				nexts[v]++
+				mu.Unlock()
+			}})
+		}()
+		select {
+		case <-posted:
+		case <-time.After(vlib.StallBudget()):
+			close(gate)
+			return "", "", true
+		}
+	}
+	h.Close()
+	close(gate)
+	ok := vlib.WaitUntil(vlib.StallBudget(), func() bool {
+		mu.Lock()
+		defer mu.Unlock()
+		return len(nexts) == c.Subs
+	})
+	time.Sleep(100 * time.Microsecond)
+	mu.Lock()
+	defer mu.Unlock()
+	for i := 0; i < c.Subs; i++ {
+		if effects[i] != 1 || nexts[i] != 1 {
+			return "C11/subscribe-then-close/count", fmt.Sprintf("%d subscriptions were made (Subscribe returned, the handler had accepted them), then the handler was closed: effect runs %v, OnNext calls %v, want once each (all delivered in time: %v)", c.Subs, effects, nexts, ok), false
+		}
+	}
+	if wrongG > 0 {
+		return "C11/subscribe-then-close/goroutine", "an effect ran on another goroutine than the handler's", false
+	}
+	return "", "", false
+}
+
+func TestSubscribeThenClose(t *testing.T) {
+	if vlib.Replaying() {
+		t.Skip()
+	}
+	for subs := 1; subs <= 3; subs++ {
+		for _, gated := range []bool{false, true} {
+			for _, warm := range []bool{false, true} {
+				for _, extra := range []int{0, 2} {
+					c := closeAfterCase{Cap: subs + extra, Subs: subs, Gated: gated, Warm: warm}
+					for rep := 0; rep < vlib.Pick(20, 200); rep++ {
+						vlib.S().Eval("subscribe-then-close")
+						key, msg, inc := runCloseAfter(c)
+						if inc {
+							vlib.S().Class("subscribe-then-close/inconclusive")
+							continue
+						}
+						vlib.S().NonTrivial("subscribe-then-close", fmt.Sprintf("%+v", c))
+						if key != "" {
+							vlib.Fail(t, key, "%+v: %s", c, msg)
+							break
+						}
+					}
+				}
+			}
+		}
+	}
 }
